@@ -23,8 +23,8 @@ F_MT, F_OPT, F_SLOW = 1, 2, 256
 # planners that propagate cost changes lazily (RRT#, RRTX): stored cost may exceed the true cost
 DEFERRED = {"RRTsharp", "RRTXstatic"}
 # objectives: path length (plain / with threshold), state-cost integral, weighted multi-objective,
-# mechanical work.  (max-min clearance: see DESIGN.md, C04 limits.)
-OBJECTIVES = ["length", "length-thr", "clearint", "combo", "mechwork"]
+# mechanical work, max-min clearance.
+OBJECTIVES = ["length", "length-thr", "clearint", "combo", "mechwork", "maxminclear"]
 MAPS = [(3, 3, [4], 0, 8), (3, 3, [1, 4], 0, 2), (3, 3, [], 0, 8), (4, 4, [5, 6, 9], 0, 15), (3, 3, [3, 4], 0, 6),
         (4, 4, [1, 5, 9, 7, 11], 0, 3)]
 
@@ -169,7 +169,7 @@ def run(tier):
         "costs compared with 4e-5 absolute + 1e-5 relative tolerance; lower bound: straight-line distance minus goal "
         "threshold for path length, the objective's own motionCostHeuristic otherwise",
         "planners with deferred cost propagation (RRT#, RRTX) may store a cost worse than the true one",
-        "objectives: path length (with/without threshold), state-cost integral, weighted multi-objective, mechanical work",
+        "objectives: path length (with/without threshold), state-cost integral, weighted multi-objective, mechanical work, max-min clearance",
     ]
     ranking(ck, tier)
     planner_costs(ck, tier)
